@@ -32,8 +32,9 @@ def run(ctx):
     R.floor("tables_read_by_get_logs", len(reads), 3)
     for dm in ("reorg", "clear_caches", "commit_changes"):
         T.clause_tables(R, F, dm, only_fields=reads)
-    # 1. order + completeness
+    # 1. order + completeness; uncommitted rows shadow committed ones ("whether or not the blocks have been committed")
     T.clause_scan_unord(R, F, CG, U)
+    T.clause_read_merge(R, F)
     sites = U.analyze(fn.id, frozenset())
     R.ob(not sites, "U-RETURN", fn.where(), "U-RETURN|%s" % fn.name,
          "get_logs builds its result by walking a sequence in hash iteration order (%s): log order differs between "
